@@ -791,3 +791,6 @@ VARIANTS += [
     ("actor-max-latent-dim-not-forwarded", "agilerl/networks/actors.py", "            max_latent_dim=max_latent_dim,\n            n_agents=n_agents,\n            latent_dim=latent_dim,\n            simba=simba,\n            recurrent=recurrent,\n            device=device,\n        )\n\n        if isinstance(action_space, spaces.Box):\n            self.action_low",
      "            n_agents=n_agents,\n            latent_dim=latent_dim,\n            simba=simba,\n            recurrent=recurrent,\n            device=device,\n        )\n\n        if isinstance(action_space, spaces.Box):\n            self.action_low", "fire", "C03.15"),
 ]
+VARIANTS += [
+    ("resnet-constructor-rejects-numpy-channel-size", _RES, "        assert isinstance(\n            channel_size, (int, np.integer)\n        ), \"Channel size must be an integer.\"", "        assert isinstance(channel_size, int), \"Channel size must be an integer.\"", "fire", "C03.10"),
+]
